@@ -238,7 +238,119 @@ fn test(c: &Case, st: &mut Stats) -> TestResult {
     Ok(())
 }
 
+/// Count scale: the same stream of messages from `n` distinct peers (requests, indications, or
+/// answered requests) handed to several agent instances; what each of them replies, and which peers
+/// it calls validated along the way and at the end, must be the same in every instance.
+#[derive(Debug, Clone, Serialize, Deserialize)]
+pub struct PeersCase {
+    pub n: u32,
+    pub v6: bool,
+    pub how: u8,
+}
+
+fn peers_record(c: &PeersCase, spoil: u32) -> Result<Vec<u8>, String> {
+    use std::net::{IpAddr, Ipv4Addr, Ipv6Addr, SocketAddr};
+    use stun_proto::agent::{HandleStunReply, StunAgent};
+    use stun_types::message::{Message, MessageClass, MessageType};
+    // ambient state an implementation must not depend on: maps created (and hashed into) on this
+    // thread before the agent exists move the per-thread hasher keys
+    let mut sink = 0usize;
+    for k in 0..spoil {
+        let mut m = std::collections::HashMap::new();
+        m.insert(k, k);
+        let mut hs = std::collections::HashSet::new();
+        hs.insert(k);
+        sink += m.len() + hs.len();
+    }
+    let _ = sink;
+    let nth = |i: u32| -> SocketAddr {
+        if c.v6 {
+            SocketAddr::new(IpAddr::V6(Ipv6Addr::from((0x2001_0db8u128 << 96) | (i as u128 * 0x1_0001))), 1024 + (i % 60_000) as u16)
+        } else {
+            SocketAddr::new(IpAddr::V4(Ipv4Addr::from(0x0a00_0000u32 + i * 7)), 1024 + (i % 60_000) as u16)
+        }
+    };
+    let mut agent = StunAgent::builder(stun_types::TransportType::Udp, agentsim::local_addr()).build();
+    let origin = agentsim::process_origin();
+    let mut rec: Vec<u8> = Vec::with_capacity(c.n as usize * 2);
+    for i in 0..c.n {
+        let from = nth(i);
+        let tid = 0x5000_0000_0000_0000_0000u128 + i as u128;
+        let bytes = match c.how % 3 {
+            0 | 1 => {
+                let mut b = crate::refstun::header(crate::refstun::type_encode(if c.how % 3 == 0 { 1 } else { 0 }, 1), 0, tid);
+                crate::refstun::push_tlv(&mut b, 0x8022, b"peer", 0);
+                crate::refstun::set_len(&mut b);
+                b
+            }
+            _ => {
+                let req = Message::builder(MessageType::from_class_method(MessageClass::Request, 1), tid.into());
+                agent.send(req, from, origin).map_err(|e| format!("send failed: {:?}", e))?;
+                agentsim::response_bytes(tid, false, agentsim::Auth::Unsigned, false, 0)
+            }
+        };
+        let msg = Message::from_bytes(&bytes).map_err(|e| format!("{:?}", e))?;
+        rec.push(match agent.handle_stun(msg, from) {
+            HandleStunReply::Drop => 0,
+            HandleStunReply::StunResponse(_) => 1,
+            HandleStunReply::IncomingStun(_) => 2,
+        });
+        // the oldest, a middle and the newest peer, as the set grows
+        for j in [0, i / 2, i] {
+            rec.push(agent.is_validated_peer(nth(j)) as u8);
+        }
+    }
+    for j in 0..=c.n {
+        rec.push(agent.is_validated_peer(nth(j)) as u8);
+    }
+    Ok(rec)
+}
+
+fn peers_test(c: &PeersCase, st: &mut Stats) -> TestResult {
+    st.eval();
+    let run = |spoil: u32| guard(|| peers_record(c, spoil)).map_err(|p| Fail::new("c20-panic", p))?.map_err(|e| Fail::new("harness", e));
+    let a = run(0)?;
+    let b = run(3)?;
+    let c2 = c.clone();
+    let t = std::thread::spawn(move || guard(|| peers_record(&c2, 1)))
+        .join()
+        .map_err(|_| Fail::new("c20-panic", "replay thread panicked"))?
+        .map_err(|p| Fail::new("c20-panic", p))?
+        .map_err(|e| Fail::new("harness", e))?;
+    for (what, other) in [("a second agent instance on the same thread", &b), ("an agent instance on another thread", &t)] {
+        if let Some(k) = a.iter().zip(other.iter()).position(|(x, y)| x != y) {
+            let per = 4usize;
+            let (step, slot) = if k < c.n as usize * per { (k / per, k % per) } else { (c.n as usize, k - c.n as usize * per) };
+            return Err(Fail::new(
+                "c20-instance",
+                format!(
+                    "the same {} messages from distinct peers give different answers in {}: first difference at message #{} ({}): {} vs {}",
+                    c.n,
+                    what,
+                    step,
+                    if step == c.n as usize { format!("final is_validated_peer(peer #{})", slot) } else if slot == 0 { "handle_stun reply".to_string() } else { "is_validated_peer of an earlier peer".to_string() },
+                    a[k],
+                    other[k]
+                ),
+            ));
+        }
+        ensure!(a.len() == other.len(), "c20-instance", "records of different length");
+    }
+    st.class("many distinct peers replayed in three instances");
+    st.nontrivial(digest(&(c.n, c.v6, c.how)));
+    Ok(())
+}
+
 pub fn run(ctx: &Ctx) -> EvidenceMeta {
+    {
+        let ns: &[u32] = if ctx.quick() { &[100, 1_025, 4_097, 5_000, 20_000] } else { &[100, 1_025, 4_097, 5_000, 20_000, 66_000, 300_000] };
+        let mut items = vec![];
+        for (k, &n) in ns.iter().enumerate() {
+            items.push(PeersCase { n, v6: k % 2 == 1, how: k as u8 });
+            items.push(PeersCase { n: n + 1, v6: k % 2 == 0, how: k as u8 + 1 });
+        }
+        ctx.enumerate("many-peers-replay", &items, peers_test);
+    }
     ctx.proptest(
         "metamorphic-replay",
         ctx.n(6_000, 250_000),
@@ -282,7 +394,11 @@ pub fn run(ctx: &Ctx) -> EvidenceMeta {
     }
 }
 
-pub fn replay(_check: &str, case: &Value, st: &mut Stats) -> Result<TestResult, String> {
+pub fn replay(check: &str, case: &Value, st: &mut Stats) -> Result<TestResult, String> {
+    if check == "many-peers-replay" {
+        let c: PeersCase = parse_case(case)?;
+        return Ok(peers_test(&c, st));
+    }
     let c: Case = parse_case(case)?;
     Ok(test(&c, st))
 }
